@@ -145,9 +145,37 @@ func runCheck(propID, repo, verif, tier string, verbose bool) int {
 	for _, k := range prop.Sweep {
 		sweepUnits[expandKey(p, k)] = true
 	}
+	var sweepDone []*Unit
 	for _, k := range sortedKeys(sweepUnits) {
 		u := p.verifyFunc(k, "safety")
 		units = append(units, u)
+		sweepDone = append(sweepDone, u)
+	}
+	if len(closure) > 0 {
+		// closure functions that no swept unit reached by inlining (interface implementations, small
+		// accessors): swept on their own, assuming only a non-nil receiver
+		reached := map[string]bool{}
+		for _, u := range sweepDone {
+			reached[u.Key] = true
+			if u.Enc != nil {
+				for k := range u.Enc.inlined {
+					reached[k] = true
+				}
+			}
+		}
+		for _, k := range closure {
+			if reached[k] {
+				continue
+			}
+			if fc := p.Contracts[k]; fc != nil && fc.Trusted != "" {
+				continue
+			}
+			fn := p.findFunc(k)
+			if fn == nil || fn.Parent() != nil || fn.Synthetic != "" {
+				continue
+			}
+			units = append(units, p.verifyFunc(k, "safety-auto"))
+		}
 	}
 	ownSet := append([]string{}, prop.Own...)
 	if len(prop.OwnRoots) > 0 {
@@ -430,6 +458,34 @@ func runCheck(propID, repo, verif, tier string, verbose bool) int {
 		"explanation":              prop.Explanation,
 		"violating_obligations":    violNames,
 		"returns_unreachable_under_contracts": deadReturns,
+	}
+	if len(closure) > 0 {
+		// coverage of the call closure of the entry points by the safety sweep
+		covered := map[string]bool{}
+		for _, u := range units {
+			if u.Kind == "sweep" && u.Err == "" {
+				covered[u.Key] = true
+			}
+		}
+		for k := range inlined {
+			covered[k] = true
+		}
+		var notCov []string
+		nCov := 0
+		for _, k := range closure {
+			if covered[k] {
+				nCov++
+				continue
+			}
+			reason := "not reached by inlining from a swept unit"
+			if fc := p.Contracts[k]; fc != nil && fc.Trusted != "" {
+				reason = "assumed contract: " + fc.Trusted
+			}
+			notCov = append(notCov, shortKey(k)+" -- "+reason)
+		}
+		cov["closure_functions"] = len(closure)
+		cov["closure_covered_by_sweep"] = nCov
+		cov["closure_not_covered"] = notCov
 	}
 	if len(samples) == 0 {
 		cov["samples"] = []interface{}{"no obligation discharged in this run"}
